@@ -21,7 +21,7 @@ CHECKS = {
  "C05": dict(cat="other", ref="DESIGN.md §3.5", technique="path enumeration on the pre-transform coroutine CFG of the evaluator (ordered evaluation events); tree-rewrite equivalence (traces) for constructors / transformers",
    text="Every acyclic path of the evaluator's coroutine body for each of the 47 node kinds (loops unrolled twice) is enumerated with its ordered sub-evaluations and compared with the specified path set: laziness of if/and/or/equality, left-to-right single evaluation elsewhere, first error ends evaluation.",
    note=TB_MIR + "await recogniser (poll == output of the awaited future); for-loops unrolled twice."),
- "C13": dict(cat="other", ref="DESIGN.md §3.13", technique="hazard-site analysis + tag-symbolic method summaries of the serde Serializer impls vs a per-kind mapping",
+ "C13": dict(cat="other", ref="DESIGN.md §3.13", technique="hazard-site analysis + tag-symbolic method summaries of the serde Serializer impls (found by trait; private collection wrappers read through) vs a per-kind mapping",
    text="No panic/lossy-cast site in any serializer body; each of the 30+28 Serializer methods and 18 collector methods builds the Value its serde kind prescribes (collector state tracked). Coincidence with serde_json is NOT decided.",
    note=TB_MIR + "serde's default methods; one allow-listed expect (map protocol violation by the caller)."),
  "C17": dict(cat="proof", ref="DESIGN.md §3.17", technique="exhaustive tag-table of every TryFrom<Value> impl + cast-losslessness rule over MIR",
@@ -29,13 +29,13 @@ CHECKS = {
    note=TB_MIR + "std's i128::from / T::try_from<i128> are exact; Result-collect stops at the first error."),
 }
 CHECKS.update({
- "C09": dict(cat="other", ref="DESIGN.md §3.9", technique="path enumeration of the coroutine bodies of evaluate_value / evaluate (MIR), compared with the specified path set; imported cache-transparency (C11) and rule-order (C15) obligations",
+ "C09": dict(cat="other", ref="DESIGN.md §3.9", technique="path enumeration of the coroutine bodies of evaluate_value / evaluate (MIR; loop-driving helpers inlined, only the per-expression evaluation opaque), structural matcher on every path; imported cache-transparency (C11) and rule-order (C15) obligations",
    text="All paths of RuleSet::evaluate_value (rule loop unrolled twice) and RuleSet::evaluate are enumerated with their ordered calls: one Outcome{value: stored per-rule result, rule: that rule} pushed per rule in iteration order of a plain forward iteration, no early exit, Ok(all outcomes); evaluate fails only through serialisation and otherwise delegates unchanged.",
    note=TB_MIR + "the per-rule evaluation is opaque here (its isolation rests on C11/C12); Vec::push / slice iteration order (std)."),
- "C10": dict(cat="other", ref="DESIGN.md §3.10", technique="MIR lookup summaries (which key on which container, what on absence) compared with the lookup rules",
+ "C10": dict(cat="other", ref="DESIGN.md §3.10", technique="MIR lookup summaries (which key on which container, what on absence) compared with the lookup rules; the context, its parts and the lookup chain behind it are located structurally",
    text="Summaries of the identifier lookup (x10 input tags), symbol and function table lookups, the 20 cells of the index step and the evaluator's rows for Reference/Symbol/Function/Index: the key is the node's own unmodified name/index, the container the addressed one, absence gives None for steps and a named error for top-level names.",
    note=TB_MIR + "BTreeMap::get / <[T]>::get compare keys and positions exactly (std)."),
- "C11": dict(cat="other", ref="DESIGN.md §3.11", technique="path + dataflow rules on UserFunctions::call's coroutine MIR, the route of the cache object, and a who-may-touch rule (local taint of the cache object over all bodies)",
+ "C11": dict(cat="other", ref="DESIGN.md §3.11", technique="path + dataflow rules on UserFunctions::call's coroutine MIR; interprocedural field-sensitive taint from every creation of the cache type to the consumer's cache parameter (one creation per evaluation entry, none under a loop); who-may-touch rule over the same taint",
    text="All 6 paths of UserFunctions::call are enumerated: lookup by name, bypass when not cacheable, same key for get/insert built from name and the whole argument only, hit makes no call, only successes stored, errors wrapped with the name; the cache object is created once per evaluation call and threaded downwards unchanged. Injectivity of the Debug rendering used as key is NOT decided.",
    note=TB_MIR + "BTreeMap semantics (std); key injectivity is an assumption."),
  "C12": dict(cat="other", ref="DESIGN.md §3.12", technique="effect / purity analysis: statics, field types, unsafe, signatures, deny-listed callees, ambient sources (clock, time zone, env, fs, net, randomness, threads) by reachability in the monomorphic instance graph incl. upstream MIR, suspension points",
@@ -52,17 +52,17 @@ CHECKS.update({
    note="rustc instance resolution and upstream MIR; std-internal bounded recursion (sort, fmt) is excluded by rule."),
 })
 CHECKS.update({
- "C06": dict(cat="other", ref="DESIGN.md §3.6", technique="hazard-site analysis of user-written parser code over the monomorphic call graph + slicing obligations discharged on token regexes (automata)",
+ "C06": dict(cat="other", ref="DESIGN.md §3.6", technique="hazard-site analysis of user-written parser code over the monomorphic call graph + slicing obligations (offsets from the calling helper's summary, specialised by constant arguments) discharged on token regexes (automata) + who-may-call region rule",
    text="Every crate-local body reachable (monomorphic call graph, through lalrpop_util's generic driver) from Expr::parse / Rule::parse is split into user-written code (134 grammar actions, literal helpers, unescape, rule builder, constructors) and the generated LR automaton. User code must contain no panic/lossy site; each string slice is admitted only if the regex of the one token whose action calls the helper proves the offsets in range and on character boundaries, and the helper has no other caller.",
    note=TB_MIR + "the automaton generated by lalrpop 0.22.2 and its runtime (lalrpop_util, regex-automata) are trusted and counted; spec/callees.py."),
  "C07": dict(cat="proof", ref="DESIGN.md §3.7", technique="grammar extraction from the generated parser + action terms from MIR; bisimulation with the precedence-table grammar; Earley probe suite",
    text="The expanded BNF printed in the generated parser (121 productions) with action terms read off the MIR of the 134 action functions is normalised and compared, up to renaming of nonterminals, with the grammar written from the property's table: equal grammars derive the same sentences with the same trees for all lengths (unambiguity: lalrpop's LR(1) check). A probe suite (every operator pair, unary/postfix mixes, if-nesting, atoms, aliases, lists/maps, truncations) is parsed with both grammars as cross-check and to produce witnesses.",
    note="lalrpop implements the LR(1) construction for the BNF it prints; rules/tss.py for action terms; spec/precedence.py; the lexer side is C08's. If the structural proof is unavailable (refactored grammar shape) the verdict is the bounded probe suite and the evidence says so."),
- "C08": dict(cat="other", ref="DESIGN.md §3.8", technique="lexer-table automata (inclusion, overlap/winner, boundary) + MIR summaries of the literal helpers and the escape switch",
+ "C08": dict(cat="other", ref="DESIGN.md §3.8", technique="lexer-table automata (inclusion, overlap/winner, boundary) + MIR summaries of the literal helpers (specialised by constant arguments) and of unescape (match / equality chain / constant-table search read alike)",
    text="Token->helper wiring and helper summaries (stripped prefix = the regex's fixed prefix, radix, conversion, variant), the escape table read off unescape's MIR, promised spellings inside token languages, token bodies free of spellings the conversions read exotically (inf/nan, digit separators), every overlapping pattern pair with its winner (keywords/literals before identifiers, longer word = identifier), skip patterns == whitespace / // comments, no whitespace or comment start inside tokens. Exactness of from_str is NOT decided.",
    note="lalrpop_util::lexer semantics (read); rules/lexre.py regex subset (fails closed); std / rust_decimal conversions trusted on their documented syntax."),
- "C14": dict(cat="other", ref="DESIGN.md §3.14", technique="tag table of the constant folder + MIR summaries of the rule builder + grammar shape of Rule",
-   text="Decided clauses: constant folding is exhaustive over the 47 node kinds (only literals, lists and maps of constants); the metadata table (name key x folded tag, other keys, non-constant -> error naming the key, last occurrence wins); comment name/description only fill in when metadata did not; missing name -> MissingRuleName; Rule = MetaItem* Expr over the same Expr nonterminal. The comment-line extraction itself is NOT decided.",
+ "C14": dict(cat="other", ref="DESIGN.md §3.14", technique="tag table of the constant folder + end-to-end tag-symbolic summary of Rule::parse over known metadata lists (maps with known history decided by key comparison) + grammar shape of Rule",
+   text="Decided clauses: constant folding is exhaustive over the 47 node kinds (only literals, lists and maps of constants); the assembly of the rule end to end - Rule::parse summarised with the generated parser replaced by the builder constructor run on 0/1/2 known metadata items (symbolic keys / values, folder opaque): first rejected item ends the parse with its own error, name = @name string else first comment line else MissingRuleName, metadata = the other items in order (last occurrence wins) plus the remaining comment lines as description unless a key is `description`, expression unchanged - every expected case must occur among the paths; Rule = MetaItem* Expr over the same Expr nonterminal. How a line is recognised as a comment and trimmed is NOT decided.",
    note=TB_MIR + "grammar extraction as in C07; std Result-collect / BTreeMap::insert semantics."),
  "C16": dict(cat="other", ref="DESIGN.md §3.16", technique="printer templates (format_args! byte code decoded from MIR) composed and re-parsed with the extracted grammar (Earley over sentential forms); leaf languages and token boundaries by automata on the lexer table; name slots of the grammar must be fed by IDENT",
    text="For all 47 node kinds alone and all 2444 (parent, hole, child) compositions the printed token string must parse back to exactly the printed tree; each literal kind's printed language must lie inside its token and strings must be escaped by the inverse of the unescape table; no last token of a child rendering may be extended by the character that follows it. 28 failing obligations are genuine round-trip defects (known findings).",
